@@ -161,9 +161,6 @@ func (idx *WorkspaceIndex) addFileIndex(path string, fi *FileIndex) {
 	for _, date := range fi.Dates {
 		idx.dateCounts[date]++
 	}
-	for payee, postings := range fi.PayeeTemplates {
-		idx.payeeTemplates[payee] = postings
-	}
 	idx.refreshDerived()
 }
 
@@ -195,9 +192,6 @@ func (idx *WorkspaceIndex) removeFileIndex(path string, fi *FileIndex) {
 	}
 	for _, date := range fi.Dates {
 		idx.decrementBy(idx.dateCounts, date, 1)
-	}
-	for payee := range fi.PayeeTemplates {
-		delete(idx.payeeTemplates, payee)
 	}
 	idx.refreshDerived()
 }
@@ -231,6 +225,26 @@ func (idx *WorkspaceIndex) refreshDerived() {
 	idx.tags = sortedKeys(idx.tagCounts)
 	idx.tagValues = buildTagValues(idx.tagValueCounts)
 	idx.dates = sortedKeys(idx.dateCounts)
+	idx.payeeTemplates = buildPayeeTemplates(idx.fileIndexes)
+}
+
+// buildPayeeTemplates merges the templates of all member files. A payee used
+// in several files keeps a template as long as any of them has one; the files
+// are visited in path order so the choice does not depend on update history
+// or map iteration.
+func buildPayeeTemplates(fileIndexes map[string]*FileIndex) map[string][]analyzer.PostingTemplate {
+	paths := make([]string, 0, len(fileIndexes))
+	for path := range fileIndexes {
+		paths = append(paths, path)
+	}
+	sort.Strings(paths)
+	templates := make(map[string][]analyzer.PostingTemplate)
+	for _, path := range paths {
+		for payee, postings := range fileIndexes[path].PayeeTemplates {
+			templates[payee] = postings
+		}
+	}
+	return templates
 }
 
 func buildTagValues(counts map[string]map[string]int) map[string][]string {
